@@ -378,6 +378,11 @@ def scripted_grids():
             ["  padded  text ", " 12 ", "1_000"], ["nan", "inf", "1e400"], ["NaN ", "-Infinity", "n,an"]]
     for fl in ([False, False, False], [True, False, False], [False, True, False], [False, False, True], [True, True, True]):
         g.append({"rows": base, "flags": fl, "variant": 0})
+    # canonically equivalent spellings side by side: each cell keeps its own code points
+    equiv = [["name", "alt", "n"], ["caf\u00e9", "cafe\u0301", "1"], ["\u00c5", "\u212b", "A\u030a"], ["\u1e69", "s\u0323\u0307", "s\u0307\u0323"],
+             ["\uac00", "\u1100\u1161", "\ufb01"], ["cafe\u0301", "caf\u00e9", "2"]]
+    for fl in ([False, False, False], [True, False, False], [False, False, True]):
+        g.append({"rows": equiv, "flags": fl, "variant": 0})
     g.append({"rows": [["x"]], "flags": [False, False, False], "variant": 0})
     g.append({"rows": [["7"]], "flags": [True, False, False], "variant": 0})
     g.append({"rows": [["a", "b", "c"]], "flags": [False, False, False], "variant": 0})
